@@ -1,1 +1,163 @@
-harnesses! {}
+//! C12 — closest and interior points (PARTIAL: polygon interior_point runs the sweep and is not
+//! admitted).  `f32` + S-ORIENT + S-HYPOT.
+use crate::c07::pt_seg_d2;
+use crate::gen::*;
+use crate::oracle::*;
+use crate::Src;
+use geo::{Closest, ClosestPoint, InteriorPoint};
+use geo_types::{LineString, MultiPoint, Point, Rect, Triangle};
+
+fn d2_close(c: Point<f32>, p: P, num: W, den: W) -> bool {
+    let (dx, dy) = (c.x() - p.0 as f32, c.y() - p.1 as f32);
+    let lhs = (dx * dx + dy * dy) * (den as f32);
+    (lhs - num as f32).abs() <= 0.0005 * (num as f32) + 0.00001
+}
+
+/// c lies on segment [a,b] up to rounding
+fn on_seg_approx(c: Point<f32>, a: P, b: P) -> bool {
+    let (ax, ay, bx, by) = (a.0 as f32, a.1 as f32, b.0 as f32, b.1 as f32);
+    let cross = (bx - ax) * (c.y() - ay) - (by - ay) * (c.x() - ax);
+    let e = 0.0001f32;
+    cross.abs() <= e * 8.0 && c.x() >= ax.min(bx) - e && c.x() <= ax.max(bx) + e && c.y() >= ay.min(by) - e && c.y() <= ay.max(by) + e
+}
+
+pub fn closest_line<S: Src>(s: &mut S, n: i8) {
+    let (p, a, b) = (gp(s, n), gp(s, n), gp(s, n));
+    let l = line_f(a, b);
+    let pp = Point(cf(p));
+    let r = l.closest_point(&pp);
+    if a == b {
+        assert!(r == Closest::Indeterminate, "zero-length line must be Indeterminate");
+        return;
+    }
+    let (num, den) = pt_seg_d2(p, a, b);
+    match r {
+        Closest::Intersection(c) => {
+            assert!(on_segment(p, a, b), "Intersection reported for a point that is not on the line");
+            assert!(d2_close(c, p, 0, 1), "Intersection payload is not the query point");
+        }
+        Closest::SinglePoint(c) => {
+            assert!(!on_segment(p, a, b), "SinglePoint reported although the point is on the line");
+            assert!(on_seg_approx(c, a, b), "closest point is not on the line");
+            assert!(d2_close(c, p, num, den), "closest point is not at the minimum distance");
+        }
+        Closest::Indeterminate => assert!(false, "Indeterminate for a line with length"),
+    }
+    vcover!(on_segment(p, a, b) && p != a && p != b, "query strictly inside the segment");
+    vcover!(den > 1 && num > 0, "projection falls inside the segment");
+    vcover!(den == 1 && num > 0, "projection clamps to an end point");
+}
+
+pub fn closest_point_point<S: Src>(s: &mut S) {
+    let (p, a) = (gp(s, 8), gp(s, 8));
+    let r = Point(cf(a)).closest_point(&Point(cf(p)));
+    if p == a {
+        assert!(r == Closest::Intersection(Point(cf(a))), "Point.closest_point of itself");
+    } else {
+        assert!(r == Closest::SinglePoint(Point(cf(a))), "Point.closest_point must be the point");
+    }
+    let mp = MultiPoint(vec![Point(cf(a)), Point(cf((a.0 + 1, a.1)))]);
+    let r2 = mp.closest_point(&Point(cf(p)));
+    let d1 = (p.0 - a.0) * (p.0 - a.0) + (p.1 - a.1) * (p.1 - a.1);
+    let d2 = (p.0 - a.0 - 1) * (p.0 - a.0 - 1) + (p.1 - a.1) * (p.1 - a.1);
+    match r2 {
+        Closest::Intersection(c) => assert!((d1 == 0 || d2 == 0) && d2_close(c, p, 0, 1), "MultiPoint Intersection"),
+        Closest::SinglePoint(c) => assert!(d1 != 0 && d2 != 0 && d2_close(c, p, d1.min(d2), 1), "MultiPoint closest point is not the nearer member"),
+        Closest::Indeterminate => assert!(false, "Indeterminate for a non-empty MultiPoint"),
+    }
+    core::mem::forget(mp);
+}
+
+/// concrete triangle, symbolic query
+pub fn closest_triangle<S: Src>(s: &mut S, n: i8) {
+    let (a, b, c): (P, P, P) = ((-2, -2), (2, -2), (-2, 2));
+    let p = gp(s, n);
+    let t = Triangle(cf(a), cf(b), cf(c));
+    let r = t.closest_point(&Point(cf(p)));
+    let pos = tri_pos(p, a, b, c);
+    let cands = [pt_seg_d2(p, a, b), pt_seg_d2(p, b, c), pt_seg_d2(p, c, a)];
+    let mut best = cands[0];
+    let mut i = 1;
+    while i < 3 {
+        if cands[i].0 * best.1 < best.0 * cands[i].1 {
+            best = cands[i];
+        }
+        i += 1;
+    }
+    match r {
+        Closest::Intersection(q) => {
+            assert!(pos != Pos::Exterior, "Intersection reported for a point outside the triangle");
+            assert!(d2_close(q, p, 0, 1), "Intersection payload is not the query point");
+        }
+        Closest::SinglePoint(q) => {
+            assert!(pos == Pos::Exterior, "SinglePoint reported for a point inside or on the triangle");
+            assert!(d2_close(q, p, best.0, best.1), "closest point is not at the minimum distance");
+            assert!(on_seg_approx(q, a, b) || on_seg_approx(q, b, c) || on_seg_approx(q, c, a), "closest point is not on the triangle");
+        }
+        Closest::Indeterminate => assert!(false, "Indeterminate for a valid triangle"),
+    }
+    vcover!(pos == Pos::Interior, "query strictly inside");
+    vcover!(pos == Pos::Exterior && best.1 > 1, "closest approach in the interior of the hypotenuse");
+}
+
+pub fn closest_linestring<S: Src>(s: &mut S, n: i8) {
+    let (a, b, c, p) = (gp(s, n), gp(s, n), gp(s, n), gp(s, n));
+    vassume!(a != b && b != c);
+    let g = ls_f(&[a, b, c]);
+    let r = g.closest_point(&Point(cf(p)));
+    let on = on_segment(p, a, b) || on_segment(p, b, c);
+    let (c1, c2) = (pt_seg_d2(p, a, b), pt_seg_d2(p, b, c));
+    let best = if c2.0 * c1.1 < c1.0 * c2.1 { c2 } else { c1 };
+    match r {
+        Closest::Intersection(q) => assert!(on && d2_close(q, p, 0, 1), "LineString Intersection"),
+        Closest::SinglePoint(q) => {
+            assert!(!on, "SinglePoint although the point is on the line string");
+            assert!(d2_close(q, p, best.0, best.1), "closest point is not at the minimum distance");
+        }
+        Closest::Indeterminate => assert!(false, "Indeterminate for a line string with length"),
+    }
+    vcover!(on_segment(p, b, c) && !on_segment(p, a, b), "query on the second segment only");
+    core::mem::forget(g);
+}
+
+pub fn interior_points<S: Src>(s: &mut S, n: i8) {
+    let (a, b, c) = (gp(s, n), gp(s, n), gp(s, n));
+    assert!(Point(cf(a)).interior_point() == Point(cf(a)), "Point interior_point");
+    let l = line_f(a, b);
+    let ip = l.interior_point();
+    assert!(ip == Point(cf(a)) || ip == Point(cf(b)) || (ip.x() * 2.0 == (a.0 + b.0) as f32 && ip.y() * 2.0 == (a.1 + b.1) as f32), "Line interior_point is not on the line");
+    // LineString of three coords: a vertex of the line string
+    let g = ls_f(&[a, b, c]);
+    let ig = g.interior_point();
+    assert!(ig.is_some(), "interior_point of a non-empty LineString is None");
+    let ig = ig.unwrap();
+    assert!(ig == Point(cf(a)) || ig == Point(cf(b)) || ig == Point(cf(c)), "LineString interior_point is not one of its vertices");
+    let e: LineString<f32> = LineString::new(vec![]);
+    assert!(e.interior_point().is_none(), "interior_point of an empty LineString is not None");
+    // valid Rect: strictly inside
+    if a.0 != b.0 && a.1 != b.1 {
+        let r = Rect::new(cf(a), cf(b));
+        let q = r.interior_point();
+        let (mn, mx) = (r.min(), r.max());
+        assert!(q.x() > mn.x && q.x() < mx.x && q.y() > mn.y && q.y() < mx.y, "Rect interior_point is not strictly inside");
+    }
+    let mp = MultiPoint(vec![Point(cf(a)), Point(cf(b))]);
+    let im = mp.interior_point();
+    assert!(im == Some(Point(cf(a))) || im == Some(Point(cf(b))), "MultiPoint interior_point is not a member");
+    let em: MultiPoint<f32> = MultiPoint(vec![]);
+    assert!(em.interior_point().is_none(), "interior_point of an empty MultiPoint is not None");
+    core::mem::forget(g);
+    core::mem::forget(mp);
+}
+
+harnesses! {
+    #[kani::stub(robust::orient2d, crate::stubs::orient2d_small)] #[kani::stub(f32::hypot, crate::stubs::hypot_f32)] fn c12_closest_line_g2(s) { closest_line(s, 2) }
+    #[kani::unwind(5)] #[kani::stub(f32::hypot, crate::stubs::hypot_f32)] fn c12_closest_point_point(s) { closest_point_point(s) }
+    #[kani::unwind(7)] #[kani::stub(robust::orient2d, crate::stubs::orient2d_small)] #[kani::stub(f32::hypot, crate::stubs::hypot_f32)] fn c12_closest_triangle_g3(s) { closest_triangle(s, 3) }
+    #[kani::unwind(6)] #[kani::stub(robust::orient2d, crate::stubs::orient2d_small)] #[kani::stub(f32::hypot, crate::stubs::hypot_f32)] fn c12_closest_linestring_g1(s) { closest_linestring(s, 1) }
+    #[kani::unwind(6)] #[kani::stub(robust::orient2d, crate::stubs::orient2d_small)] #[kani::stub(f32::hypot, crate::stubs::hypot_f32)] fn c12_interior_points_g2(s) { interior_points(s, 2) }
+    #[kani::stub(f32::hypot, crate::stubs::hypot_f32)] fn c12_sanity_must_fail(s) {
+        closest_point_point(s);
+        assert!(false, "sanity twin reached its end");
+    }
+}
